@@ -192,6 +192,9 @@ func maxFileUnder(dir string) int64 {
 }
 
 func runOverlay(c *ovCase, spelling string, explicitParents bool, tmp string, extras bool) (obs ovObs) {
+	if c.Limit > 0 {
+		explicitParents = false // the parents of a skipped oversize file would be real entries the abstract layer does not have
+	}
 	obs.Variant = fmt.Sprintf("%s/parents=%v", spelling, explicitParents)
 	var specs []layerSpec
 	for i, l := range c.Layers {
@@ -282,6 +285,9 @@ func runOverlay(c *ovCase, spelling string, explicitParents bool, tmp string, ex
 		}
 		if obs.ReqPath != "" {
 			rcfg := scimage.DefaultConfig()
+			if c.Limit > 0 {
+				rcfg.MaxFileBytes = int64(c.Limit)
+			}
 			rcfg.Requirer = require.NewFileRequirerPaths([]string{strings.TrimPrefix(obs.ReqPath, "/")})
 			var rimg *scimage.Image
 			var rerr error
